@@ -32,14 +32,14 @@
 (*        only promotes), the property fails, and the observed result is   *)
 (*        EXACTLY what the transcription AsIsAssign of the pinned greedy   *)
 (*        algorithm computes (bug-compatibility).                          *)
-(*   F23  float artefacts of the searches: the chosen vector holds a       *)
+(*   F27  float artefacts of the searches: the chosen vector holds a       *)
 (*        negative count that the logged search really visited (the        *)
 (*        `while theta > 0` loop made one move too many), or a count such  *)
 (*        as 11.999998 that int() truncates; again only if the observed    *)
 (*        result equals AsIsAssign on the truncated counts.                *)
 (*        Decided only after F18's form (greedy result on the ROUNDED      *)
 (*        counts) did not match.                                           *)
-(*   F24  scenario predicate: the precision tuple of the layer is not      *)
+(*   F28  scenario predicate: the precision tuple of the layer is not      *)
 (*        ascending (the searches then pair counts with the wrong          *)
 (*        bit-widths and map the result back with the sorting permutation  *)
 (*        instead of its inverse).                                         *)
@@ -99,10 +99,12 @@ RoundVecU(v) == [p \in DOMAIN v |-> RoundU(v[p])]
 \* configuration, 0 = the original one (no recursion: TLC's Java stack)
 ArgBest(vcost, base) ==
     LET cost(k) == IF k = 0 THEN base ELSE vcost[k]
-    IN  CHOOSE k \in 0..Len(vcost) :
-            \A j \in 0..Len(vcost) : cost(k) < cost(j) \/ (cost(k) = cost(j) /\ k <= j)
+        vals == {cost(k) : k \in 0..Len(vcost)}
+        minc == CHOOSE x \in vals : \A y \in vals : x <= y
+        I    == {k \in 0..Len(vcost) : cost(k) = minc}
+    IN  CHOOSE k \in I : \A j \in I : k <= j
 
-\* verdict of one layer:  <<class, text>>  class in {"ok","drift","F18","F23","F24","viol"}
+\* verdict of one layer:  <<class, text>>  class in {"ok","drift","F18","F27","F28","viol"}
 IsAscending(bits) == \A p \in 1..(Len(bits) - 1) : bits[p] < bits[p + 1]
 
 CheckLayer(L) ==
@@ -131,7 +133,7 @@ CheckLayer(L) ==
         rawOK   == rawSeq = model
         Vis(k)  == IF rawOK THEN rawSeq[k] ELSE [p \in 1..P |-> RoundM(L.visits[k][RankIn(order, p)])]
         visOK   == negVisited \/ [k \in DOMAIN L.visits |-> Vis(k)] = model
-        kbest  == ArgBest(L.vcost, L.base)
+        mincost == IF ArgBest(L.vcost, L.base) = 0 THEN L.base ELSE L.vcost[ArgBest(L.vcost, L.base)]
         \* cost the refinement itself computed for the configuration it chose (if it was visited)
         ks     == {k \in DOMAIN L.visits : Vis(k) = chosen}
         ccost  == IF ks # {} THEN L.vcost[CHOOSE k \in ks : \A j \in ks : k <= j] ELSE L.base
@@ -140,24 +142,24 @@ CheckLayer(L) ==
                      \o " lowered channels=" \o ToString(lowered)
         raw    == " raw chosen x10^6=" \o ToString(L.bestu)
         f24(v) == IF ~IsAscending(L.bits) /\ v[1] = "viol"
-                  THEN <<"F24", what \o " (" \o v[2] \o ")">> ELSE v
+                  THEN <<"F28", what \o " (" \o v[2] \o ")">> ELSE v
     IN  f24(
         IF ccost > L.base + Slack(L.base)
         THEN <<"viol", "C20.cost " \o what \o ": the chosen configuration costs more than the original one">>
         ELSE IF lowered = {} /\ met /\ legit
         THEN (IF ~(compatR \/ compatT)
               THEN <<"drift", "C20 " \o what \o ": result satisfies the property but differs from the transcription">>
-              ELSE IF (kbest = 0 /\ chosen # n0) \/ (kbest > 0 /\ Vis(kbest) # chosen)
-              THEN <<"drift", "C20 " \o what \o ": chosen counts are not the cheapest visited configuration">>
+              ELSE IF (ks = {} /\ chosen # n0) \/ ccost > mincost + Slack(L.base)
+              THEN <<"drift", "C20 " \o what \o ": chosen counts are not a cheapest visited configuration (up to the cost resolution)">>
               ELSE IF ~visOK
               THEN <<"drift", "C20 " \o what \o ": visited configurations differ from the transcription of the searches">>
               ELSE <<"ok", "">>)
         ELSE IF ~legit
         THEN (IF compatT /\ negChosen /\ negVisited
-              THEN <<"F23", what \o raw>>
+              THEN <<"F27", what \o raw>>
               ELSE <<"viol", "C20.chosen " \o what \o ": the chosen counts are not reachable by promoting channels" \o raw>>)
         ELSE IF compatR THEN <<"F18", what>>
-        ELSE IF compatT /\ truncated THEN <<"F23", what \o raw>>
+        ELSE IF compatT /\ truncated THEN <<"F27", what \o raw>>
         ELSE <<"viol", "C20.assign " \o what \o
                   (IF lowered # {} THEN ": channels lowered" ELSE ": chosen counts not met")>>)
 
@@ -167,12 +169,12 @@ CheckModel(t) ==
         first(c) == vs[CHOOSE i \in DOMAIN vs : vs[i][1] = c /\ \A j \in 1..(i - 1) : vs[j][1] # c][2]
         costup == t.ca > t.cb + Slack(t.cb)
     IN  IF "viol" \in cls THEN first("viol")
-        ELSE IF costup /\ cls \cap {"F18", "F23", "F24"} = {}
+        ELSE IF costup /\ cls \cap {"F18", "F27", "F28"} = {}
         THEN "C20.cost: model cost after " \o ToString(t.ca) \o " > before " \o ToString(t.cb) \o " (1/100 cycle)"
-        ELSE IF "F24" \in cls
-        THEN "known:F24:optimize_prec_assignment with a precision tuple that is not ascending: " \o first("F24")
-        ELSE IF "F23" \in cls
-        THEN "known:F23:float32 channel fractions in optimize_prec_assignment: " \o first("F23")
+        ELSE IF "F28" \in cls
+        THEN "known:F28:optimize_prec_assignment with a precision tuple that is not ascending: " \o first("F28")
+        ELSE IF "F27" \in cls
+        THEN "known:F27:float32 channel fractions in optimize_prec_assignment: " \o first("F27")
         ELSE IF "F18" \in cls
         THEN "known:F18:greedy _reassign_precisions inside optimize_prec_assignment: " \o first("F18")
         ELSE IF "drift" \in cls THEN "drift:" \o first("drift")
